@@ -29,7 +29,7 @@ func init() {
 }
 
 func checkC01(p *core.Prog, r *core.Report) {
-	r.Explanation = "Decides structural necessary conditions of the capacity bound: (R1/R5) every grant as a new holder (call of LockManager.AddLock) is reached only through the true side of the admission predicate doLock for the same manager and lock, with the shard mutex held continuously from the predicate to the holder-list insert and the depth increment; (R2) every true-returning path of doLock entails locked==0 or locked<=request.Count and locked<=oldest.Count (less-lock-version paths exempt as in the property); (R3) every store to hold-state fields of LockManager/Lock happens with the shard mutex held (interprocedural lock-state, entry state = join over call sites); (R4) after taking a manager's mutex the key is re-checked before any use; (R5) GetOrNewLockManager publishes a fresh manager for a key only after a slow-map lookup of that key on the path or after reading the bucket counter as 0, and inserts into the slow map only inside the write-locked section of its lookup. NOT decided: linearizability of the lock-free key table beyond R5 (the CAS protocol on the slot word, retirement races), PriorityMutex lanes, that LockManager.locked equals the number of holders, holding the wrong shard's mutex (one abstract lock per mutex type)."
+	r.Explanation = "Decides structural necessary conditions of the capacity bound: (R1/R5) every grant as a new holder (call of LockManager.AddLock) is reached only through the true side of the admission predicate doLock for the same manager and lock, with the shard mutex held continuously from the predicate to the holder-list insert and the depth increment; (R2) every true-returning path of doLock entails locked==0 or locked<=request.Count and locked<=oldest.Count (less-lock-version paths exempt as in the property); (R3) every store to hold-state fields of LockManager/Lock happens with the shard mutex held (interprocedural lock-state, entry state = join over call sites); (R4) after taking a manager's mutex the key is re-checked before any use; (R5) GetOrNewLockManager publishes a fresh manager for a key only after a slow-map lookup of that key on the path or after reading the bucket counter as 0, and inserts into the slow map only inside the write-locked section of its lookup. (R6) RemoveLockManager zeroes the manager's key before returning it to the pool (what makes R4's re-check reject a recycled manager); (R7) SLock.GetOrNewDB publishes a new database only after testing the slot empty under the mutex held at the store. NOT decided: linearizability of the lock-free key table beyond R5 (the CAS protocol on the slot word, retirement races), PriorityMutex lanes, that LockManager.locked equals the number of holders, holding the wrong shard's mutex (one abstract lock per mutex type)."
 	r.Assumptions = []string{
 		"Go type checker, go/ssa and the VTA call graph are correct for /repo",
 		"all *PriorityMutex values are one abstract lock class (wrong-shard locking is not detected)",
@@ -40,6 +40,8 @@ func checkC01(p *core.Prog, r *core.Report) {
 	c01R4(p, r)
 	c01R3(p, r)
 	c01R5(p, r)
+	c01R6(p, r)
+	c01R7(p, r)
 }
 
 // ---------------------------------------------------------------------------
@@ -529,5 +531,144 @@ func c01R3(p *core.Prog, r *core.Report) {
 		} else {
 			r.Violate(rule, k, o.pos, "store without the shard mutex in context: "+strings.Join(o.unheldIn, "; "), o.path)
 		}
+	}
+}
+
+// ---------------------------------------------------------------------------
+// R6: a manager returned to the pool carries no key. A request that looked the
+// manager up and then parked on the shard mutex re-checks manager.lockKey
+// against its own key after acquiring the mutex (R4); that re-check rejects a
+// manager recycled in the meantime only because recycling zeroes the key. A
+// pooled manager that keeps its last key lets the parked request be granted on
+// an unpublished manager while the next request builds a second one.
+func c01R6(p *core.Prog, r *core.Report) {
+	const rule = "C01/R6"
+	r.Rule(rule, "RemoveLockManager: on every path that returns the manager to the pool, all 16 bytes of its key were zeroed before", 1)
+	fn := mustFunc(p, r, "server.(*LockDB).RemoveLockManager")
+	if fn == nil {
+		return
+	}
+	keyF := fk("server.LockManager", "lockKey")
+	n := 0
+	ex := core.NewExplorer(p, core.Hooks{
+		Instr: func(x *core.X) {
+			if !x.Top() {
+				return
+			}
+			st, ok := x.Ins.(*ssa.Store)
+			if !ok {
+				return
+			}
+			// element store manager.lockKey[i] = 0
+			if ia, ok := st.Addr.(*ssa.IndexAddr); ok {
+				if fa, ok := ia.X.(*ssa.FieldAddr); ok && core.FieldKeyOf(fa.X.Type(), fa.Field) == keyF {
+					if c, ok := ia.Index.(*ssa.Const); ok && c.Value != nil && x.Canon(st.Val).S == "0" {
+						x.Set("kz:"+c.Value.ExactString(), "1")
+					}
+				}
+				// the pool slot
+				if k, ok := storeKey(ia.X); ok && k == fk("server.LockDB", "freeLockManagers") {
+					_ = k
+				}
+			}
+			if k, ok := storeKey(st.Addr); ok {
+				if _, whole := st.Addr.(*ssa.FieldAddr); whole && k == keyF {
+					if c, ok := st.Val.(*ssa.Const); ok && c.Value == nil {
+						for i := 0; i < 16; i++ {
+							x.Set(fmt.Sprintf("kz:%d", i), "1")
+						}
+					} else {
+						for i := 0; i < 16; i++ {
+							x.Set(fmt.Sprintf("kz:%d", i), "")
+						}
+					}
+				}
+				if k == fk("server.LockDB", "freeLockManagers") && x.Canon(st.Val).S != "nil" {
+					n++
+					zeroed := 0
+					for i := 0; i < 16; i++ {
+						if x.Get(fmt.Sprintf("kz:%d", i)) == "1" {
+							zeroed++
+						}
+					}
+					key := siteKey(p, x.Ins)
+					if zeroed == 16 {
+						r.Hold(rule, key, x.Pos(), "key zeroed before the manager is pooled")
+					} else {
+						r.Violate(rule, key, x.Pos(), fmt.Sprintf("manager returned to the pool with %d of 16 key bytes zeroed: a request parked on the shard mutex passes its key re-check on the recycled manager and is granted beside the key's new manager", zeroed), x.St.Trace)
+					}
+				}
+			}
+		},
+	})
+	ex.NoHist = true
+	ex.Run(fn, nil)
+	if ex.Imprecise != "" {
+		r.Fail("C01/R6: %s", ex.Imprecise)
+	}
+	if n == 0 {
+		r.Fail("C01/R6: no store of a manager into the free pool found in RemoveLockManager")
+	}
+}
+
+// ---------------------------------------------------------------------------
+// R7: one LockDB per database id. SLock.GetOrNewDB publishes a new database
+// only after testing, under the server mutex it holds at the store, that the
+// slot is still empty (check-then-act in one critical section). Two databases
+// for one id are two independent admission domains for the same keys.
+func c01R7(p *core.Prog, r *core.Report) {
+	const rule = "C01/R7"
+	r.Rule(rule, "SLock.GetOrNewDB stores a new LockDB into dbs[id] only on a path that tested dbs[id] == nil while holding the mutex held at the store", 1)
+	fn := mustFunc(p, r, "server.(*SLock).GetOrNewDB")
+	if fn == nil {
+		return
+	}
+	n := 0
+	ex := core.NewExplorer(p, core.Hooks{
+		Track: func(x *core.X, a core.Atom) bool { return strings.Contains(core.Plain(a.String()), ".dbs[") },
+		Branch: func(x *core.X, a core.Atom) {
+			if !x.Top() {
+				return
+			}
+			if strings.Contains(core.Plain(a.L), ".dbs[") && a.Op == "==" && a.R == "nil" && held(x, "glock") {
+				x.Set("empty", "1")
+			}
+		},
+		Instr: func(x *core.X) {
+			if !x.Top() {
+				return
+			}
+			if cl, acq, ok := trackLocks(x); ok {
+				if cl == "glock" && !acq {
+					x.Set("empty", "")
+				}
+				return
+			}
+			st, ok := x.Ins.(*ssa.Store)
+			if !ok {
+				return
+			}
+			ia, ok := st.Addr.(*ssa.IndexAddr)
+			if !ok || !strings.HasSuffix(core.Plain(x.Canon(ia.X).S), ".dbs") || x.Canon(st.Val).S == "nil" {
+				return
+			}
+			n++
+			key := siteKey(p, x.Ins)
+			switch {
+			case !held(x, "glock"):
+				r.Violate(rule, key, x.Pos(), "database table written without the server mutex", x.St.Trace)
+			case x.Get("empty") != "1":
+				r.Violate(rule, key, x.Pos(), "a new database is stored without re-testing, under the mutex held at the store, that the slot is still empty: two first requests for an id each build and use their own LockDB (two holders of one key)", x.St.Trace)
+			default:
+				r.Hold(rule, key, x.Pos(), "slot tested empty in the same critical section")
+			}
+		},
+	})
+	ex.Run(fn, nil)
+	if ex.Imprecise != "" {
+		r.Fail("C01/R7: %s", ex.Imprecise)
+	}
+	if n == 0 {
+		r.Fail("C01/R7: no store into SLock.dbs found in GetOrNewDB")
 	}
 }
